@@ -478,6 +478,7 @@ Proof.
     + apply linv_wire. apply Hafter; [reflexivity|exact Hinv].
     + apply Hafter; [reflexivity|exact Hinv].
     + apply fail_linv. apply Hafter; [reflexivity|exact Hinv].
+  - (* TakeCancelled *) exact LI.
   - (* Net *)
     destruct (arm_ready l && negb _); [|exact Logic.I].
     pose proof (read_batch_linv pkts (st l) [] (pending l) I Hrl) as H.
